@@ -55,6 +55,80 @@ WalkTab(n, Lm) == WalkTabH(n, Lm, n - 1)
 MinHops(n, D, WT, s, t) ==
   IF D[s][t] >= INF THEN {} ELSE {h \in 0..(Len(WT) - 1) : WT[h + 1][s][t] = D[s][t]}
 
+(* ============ cheap equivalents for inputs beyond n = 12 (scale regime) ======= *)
+(* RelaxFix costs n^3 x (longest minimum path), WalkTab n^4: unaffordable for the  *)
+(* 50..300-node inputs of the scale-regime families.  The operators below decide   *)
+(* the same questions in about n x (number of connections) steps; mc cross-checks  *)
+(* each of them against the definitions above on every small input                 *)
+(* (DistanceImpl!FastOracleInv).  No bound on n; lengths and path totals < INF/2.  *)
+OutNb(n, Lm) == EVec(n, LAMBDA i : {j \in 1..n : Lm[i][j] < INF})
+InNb(n, Lm)  == EVec(n, LAMBDA j : {k \in 1..n : Lm[k][j] < INF})
+IsHopLen(n, Lm) == \A i, j \in 1..n : Lm[i][j] = 1 \/ Lm[i][j] = INF   \* every connection has length 1
+PosLen(n, Lm) == \A i, j \in 1..n : Lm[i][j] >= 1                       \* no zero-length connection
+
+(* breadth-first search by levels over out-neighbour sets: Lv[d + 1] = the nodes   *)
+(* whose hop distance from s is d                                                  *)
+RECURSIVE BfsGrow(_, _, _)
+BfsGrow(Out, seen, Lv) ==
+  LET nx == (UNION {Out[k] : k \in Lv[Len(Lv)]}) \ seen
+  IN IF nx = {} THEN Lv ELSE BfsGrow(Out, seen \cup nx, Append(Lv, nx))
+BfsLevels(Out, s) == BfsGrow(Out, {s}, <<{s}>>)
+(* the nodes reachable from s (s included) = {t : Dist[s][t] < INF}               *)
+ReachFrom(Out, s) == LET Lv == BfsLevels(Out, s) IN UNION {Lv[d] : d \in 1..Len(Lv)}
+(* = HopDist(n, Lm) = Dist(n, HopLen(n, Lm))                                       *)
+HopRowFast(n, Out, s) ==
+  LET Lv == BfsLevels(Out, s)
+      lev == FoldLeft(LAMBDA acc, d : [j \in Lv[d] |-> d - 1] @@ acc,
+                      [j \in {} |-> 0], [d \in 1..Len(Lv) |-> d])
+  IN EVec(n, LAMBDA j : IF j \in DOMAIN lev THEN lev[j] ELSE INF)
+HopDistFast(n, Lm) == LET Out == OutNb(n, Lm) IN EVec(n, LAMBDA s : HopRowFast(n, Out, s))
+
+(* ONE relaxation pass decides whether `row` is the vector of distances from s,    *)
+(* provided every length is >= 1 (PosLen):  row[s] = 0 and, for j # s,             *)
+(* row[j] = min over connections k -> j of row[k] + Lm[k][j]  (INF if there is     *)
+(* none).  This equation has exactly one solution in Nat \cup {INF}: a solution is *)
+(* <= Dist (induction along a minimum path) and >= Dist (every finite entry is     *)
+(* supported by a strictly smaller one, hence - descending to s - by a real walk   *)
+(* of that total length).  In = InNb(n, Lm).                                       *)
+IsDistRow(n, Lm, In, s, row) ==
+  /\ row[s] = 0
+  /\ \A j \in (1..n) \ {s} :
+       /\ row[j] >= 0 /\ row[j] <= INF
+       /\ row[j] = MinOf({INF} \cup {Plus(row[k], Lm[k][j]) : k \in In[j]})
+IsDistMat(n, Lm, D) == LET In == InNb(n, Lm) IN \A s \in 1..n : IsDistRow(n, Lm, In, s, D[s])
+
+(* edge counts of the minimum-length walks from s to every node (PosLen; row = the *)
+(* distances from s): nodes in the order of increasing distance, the counts of j   *)
+(* are 1 + the counts of its tight predecessors.  H[t] = MinHops(n, D, WalkTab, s, t) *)
+MinHopsRow(n, Lm, In, s, row) ==
+  LET order == SetToSortSeq({j \in 1..n : row[j] < INF},
+                            LAMBDA a, b : row[a] < row[b] \/ (row[a] = row[b] /\ a < b))
+  IN FoldLeft(LAMBDA H, j :
+                IF j = s THEN H
+                ELSE [H EXCEPT ![j] = UNION {{h + 1 : h \in H[k]} :
+                         k \in {k \in In[j] : row[k] < row[j] /\ row[k] + Lm[k][j] = row[j]}}],
+              [j \in 1..n |-> IF j = s THEN {0} ELSE {}], order)
+
+(* mean of 1/d over ordered pairs of distinct nodes for n beyond 12 (MeanInvOK     *)
+(* below would exceed 2^31): floor(c_v / (v * np) * 10^9) per distinct distance v  *)
+(* with c_v pairs, summed: S9 <= exact * 10^9 < S9 + K.  obs6 = round(x * 10^6) of *)
+(* a float64 mean x (relative error < 10^-12).  Needs v * np < 2 * 10^8, all v >= 1 *)
+(* or 0 (then the mean is +inf).                                                   *)
+MeanInvBigInRange(n, D) ==
+  \A p \in OffPairs(n) : D[p[1]][p[2]] >= INF \/ D[p[1]][p[2]] < 200000000 \div (n * (n - 1))
+MeanInvBigOK(obs6, n, D) ==
+  LET np == n * (n - 1)
+      fin == {p \in OffPairs(n) : D[p[1]][p[2]] < INF}
+      bag == BagOfCells(D, fin)
+      vals == DOMAIN bag
+      T9(c, q) == (c \div q) * 1000000000 + Digits(c % q, q, 9, 0)
+      S9 == Sum(vals, LAMBDA v : T9(bag[v], v * np))
+      K == Cardinality(vals)
+  IN IF 0 \in vals THEN obs6 = INF
+     ELSE /\ obs6 >= 0 /\ obs6 <= 1000000
+          /\ obs6 * 1000 >= S9 - 501
+          /\ obs6 * 1000 <= S9 + K + 501
+
 (* ============== L0, definition 2: enumerated simple paths ==================== *)
 RECURSIVE ExtendPaths(_, _, _, _)
 ExtendPaths(n, Lm, p, t) ==
